@@ -12,6 +12,10 @@ fn main() {
         std::process::exit(2);
     }
     let family = args[1].as_str();
+    if family == "dag" || family == "dagdup" {
+        // drive dag <seed> <n> <outdir> [maxchanges]: histories exported as DAG constants for TLC
+        return dag_main(&args);
+    }
     let seed: u64 = args[2].parse().expect("seed");
     let n: usize = args[3].parse().expect("n");
     world::silence_panics();
@@ -21,12 +25,15 @@ fn main() {
     for i in 0..n {
         let mut srng = rng.fork();
         let w = match family {
-            "graph" => {
+            "graph" | "dup" => {
+                let dup = family == "dup";
                 let o = scen::GraphOpts {
+                    weights: if dup { scen::W_DUP } else { scen::W_DEFAULT },
+                    twin_start: dup,
                     steps: 10 + srng.below(14),
                     max_reps: 4,
                     max_changes: 14,
-                    dup_actors: i % 2 == 1,
+                    dup_actors: dup || i % 2 == 1,
                     obs: ObsLevel::Graph,
                     prof: Profile::graph(),
                     enc: automerge::TextEncoding::UnicodeCodePoint,
@@ -45,4 +52,50 @@ fn main() {
     }
     out.flush().unwrap();
     println!("DRIVE family={} scenarios={} events={}", family, n, events);
+}
+
+fn dag_main(args: &[String]) {
+    use serde_json::json;
+    let seed: u64 = args[2].parse().expect("seed");
+    let n: usize = args[3].parse().expect("n");
+    let outdir = &args[4];
+    let maxc: usize = args.get(5).and_then(|s| s.parse().ok()).unwrap_or(6);
+    std::fs::create_dir_all(outdir).unwrap();
+    world::silence_panics();
+    let dup = args[1] == "dagdup";
+    let mut rng = Rng::new(seed ^ 0xDA6);
+    let mut made = 0;
+    let mut tries = 0;
+    while made < n && tries < n * 20 {
+        tries += 1;
+        let mut srng = rng.fork();
+        let o = scen::GraphOpts {
+            weights: if dup { scen::W_DUP } else { scen::W_DEFAULT },
+            twin_start: dup,
+            steps: 8 + srng.below(10),
+            max_reps: 3,
+            max_changes: maxc,
+            dup_actors: dup,
+            obs: ObsLevel::Graph,
+            prof: Profile::graph(),
+            enc: automerge::TextEncoding::UnicodeCodePoint,
+        };
+        let w = scen::graph_scenario(made, &mut srng, &o, "dag");
+        if w.dead || w.known.len() < 3 || w.known.len() > maxc {
+            continue;
+        }
+        let changes: Vec<serde_json::Value> = w
+            .known
+            .values()
+            .map(|c| {
+                let mut m = amverif::chg::meta(c);
+                m["raw"] = json!(hex::encode(c.raw_bytes()));
+                m
+            })
+            .collect();
+        let j = json!({"enc":"cp","changes":changes});
+        std::fs::write(format!("{}/dag-{}.json", outdir, made), j.to_string()).unwrap();
+        made += 1;
+    }
+    println!("DRIVE family={} dags={}", args[1], made);
 }
